@@ -15,7 +15,7 @@ REQUIRED = ['kill_after_abort', 'kill_live', 'quiescent_checks', 'kill_phase/uns
 ALPHABET = [['pause', 'p'], ['play'], ['kill', 'k'], ['resume', ['v']], ['cancel_future']]
 KILLS = ('kill', 'cancel_future')
 LISTENER_EVENTS = ['running', 'waiting', 'paused', 'played', 'output']
-BOUNDS = {'quick': 'basic program family, K<=2 exhaustive, listener/step-issued kills K=1 (+1 slot request)',
+BOUNDS = {'quick': 'basic program family, K<=2 exhaustive, K=3 over {pause,play,kill} within neighbouring slots, listener/step-issued kills K=1 (+1 slot request)',
           'thorough': '+ 40 random programs, K=3/4 sampled'}
 
 
@@ -45,6 +45,14 @@ def gen_cases(tier, seed):
                     if act[0] in KILLS or other[0] in KILLS:
                         for s in (range(0, n + 1) if tier == 'thorough' else range(0, n + 1, 2)):
                             plist.append([{'at': s, 'act': other}, base])
+        # three requests within one step (same slot or neighbouring slots), every combination of pause / play / kill with a kill
+        import itertools
+        small = [['pause', 'p'], ['play'], ['kill', 'k']]
+        for s0 in range(0, n + 1):
+            for off in ((0, 0, 0), (0, 0, 1), (0, 1, 1), (0, 1, 2)):
+                for combo in itertools.product(small, repeat=3):
+                    if any(c[0] == 'kill' for c in combo):
+                        plist.append([{'at': s0 + o, 'act': list(c)} for o, c in zip(off, combo)])
         # fault: the task stepping the process is aborted mid-step (a caller's timeout), then a kill arrives
         # (the kill is placed after the cancellation has been processed, i.e. at the following quiescent point: a request inside
         # the window between task.cancel() and its delivery is outside the property's quantifier, see DESIGN.md section 6)
